@@ -154,7 +154,22 @@ func (a *Analysis) CheckC12(rep *Report) {
 						rep.Ob("T4-encode-materialises-from-same-table", key+"["+pl.Conds+"]", fe.Table == fd.Table && fe.Key == fd.Key, a.P.Pos(fe.Pos),
 							fmt.Sprintf("Encode fills the absent part from %s by %s, Decode uses %s by %s", fe.Table, fe.Key, fd.Table, fd.Key))
 					} else {
-						rep.Ob("T4-encode-uses-supplied-part", key+"["+pl.Conds+"]", true, "", "")
+						// the part the caller supplied – which must be there on this path: an arm taken when the field is nil
+						// has to encode the part it built from the table, not the (absent) one the message came with
+						absent := false
+						for _, c := range pl.Path.Conds {
+							v := c.V
+							if v.Op != "binop" || len(v.Args) != 2 || !((v.Name == "==" && c.Taken) || (v.Name == "!=" && !c.Taken)) {
+								continue
+							}
+							for side := 0; side < 2; side++ {
+								if idx, isF := recvField(stripIface(stripCT(v.Args[side]))); isF && idx == fd.GoField && v.Args[1-side].IsNilConst() {
+									absent = true
+								}
+							}
+						}
+						rep.Ob("T4-encode-uses-supplied-part", key+"["+pl.Conds+"]", !absent, a.P.Pos(fe.Pos),
+							"on the arm taken when the dynamic part is absent, Encode is invoked on the message's own (nil) part instead of the one built from the table")
 					}
 				}
 			}
